@@ -13,6 +13,7 @@ import (
 	banktypes "github.com/cosmos/cosmos-sdk/x/bank/types"
 
 	baseapi "github.com/regen-network/regen-ledger/api/v2/regen/ecocredit/v1"
+	"github.com/regen-network/regen-ledger/x/ecocredit/v3/base"
 	basetypes "github.com/regen-network/regen-ledger/x/ecocredit/v3/base/types/v1"
 
 	"verifharness/chain"
@@ -27,6 +28,7 @@ var CreditTypeAbbrevs = []string{"C", "CC", "CCC", "B", "BIO", "BI", "KSH", "X"}
 func (g *Gen) registerBase() {
 	g.add("add_credit_type", g.genAddCreditType)
 	g.add("create_class", g.genCreateClass)
+	g.add("class_combo", g.genClassCombo)
 	g.add("create_project", g.genCreateProject)
 	g.add("create_batch", g.genCreateBatch)
 	g.add("mint", g.genMint)
@@ -129,6 +131,64 @@ func apiCoin(c interface {
 		return c.GetDenom(), nil
 	}
 	return c.GetDenom(), n
+}
+
+// genClassCombo: create a class and a project in it in ONE transaction (the class id is predictable
+// from the class sequence); half of the time a later message fails and everything is reverted, after
+// which another admin creates a class of that credit type (gets the same id) — scripted follow-up:
+// the reverted admin tries to create a project in / transfer that class (must be refused), the real
+// admin's issuer creates a project (must be accepted).
+func (g *Gen) genClassCombo() *eng.Tx {
+	if len(g.V.ClassList) >= g.P.MaxClasses+4 || g.V.Allowlist {
+		return nil
+	}
+	ab := "C"
+	if g.V.CreditTypes["BIO"] != nil && g.chance(0.4) {
+		ab = "BIO"
+	}
+	seq := g.V.ClassSeq[ab]
+	if seq == 0 {
+		seq = 1
+	}
+	classID := base.FormatClassID(ab, seq)
+	if g.V.ClassByID[classID] != nil {
+		return nil
+	}
+	admin := g.actor()
+	other := g.otherActor(admin)
+	fee := func() *sdk.Coin {
+		if g.V.ClassFee != nil && g.V.ClassFee.Fee != nil {
+			d, a := apiCoin(g.V.ClassFee.Fee)
+			if a != nil && a.Sign() > 0 {
+				c := sdk.Coin{Denom: d, Amount: sdk.NewIntFromBigInt(a)}
+				return &c
+			}
+		}
+		return nil
+	}
+	g.refSeq++
+	msgs := []sdk.Msg{
+		&basetypes.MsgCreateClass{Admin: admin, Issuers: []string{admin}, Metadata: "combo", CreditTypeAbbrev: ab, Fee: fee()},
+		&basetypes.MsgCreateProject{Admin: admin, ClassId: classID, Metadata: "combo", Jurisdiction: "US", ReferenceId: fmt.Sprintf("CMB-%d", g.refSeq)},
+	}
+	if g.chance(0.5) {
+		msgs = append(msgs, &basetypes.MsgCreateProject{Admin: admin, ClassId: ab + "999999", Metadata: "x", Jurisdiction: "US"}) // unknown class: fails, reverting the transaction
+		ref1, ref2 := fmt.Sprintf("CMB-%da", g.refSeq), fmt.Sprintf("CMB-%db", g.refSeq)
+		g.script = append(g.script,
+			func() *eng.Tx {
+				return &eng.Tx{Msgs: []sdk.Msg{&basetypes.MsgCreateClass{Admin: other, Issuers: []string{other}, Metadata: "combo-2", CreditTypeAbbrev: ab, Fee: fee()}}, Tag: "class_combo/recreate"}
+			},
+			func() *eng.Tx {
+				return &eng.Tx{Msgs: []sdk.Msg{&basetypes.MsgCreateProject{Admin: admin, ClassId: classID, Metadata: "combo", Jurisdiction: "US", ReferenceId: ref1}}, Tag: "class_combo/reverted-admin"}
+			},
+			func() *eng.Tx {
+				return &eng.Tx{Msgs: []sdk.Msg{&basetypes.MsgUpdateClassAdmin{Admin: admin, ClassId: classID, NewAdmin: admin}}, Tag: "class_combo/reverted-admin"}
+			},
+			func() *eng.Tx {
+				return &eng.Tx{Msgs: []sdk.Msg{&basetypes.MsgCreateProject{Admin: other, ClassId: classID, Metadata: "combo", Jurisdiction: "US", ReferenceId: ref2}}, Tag: "class_combo/issuer"}
+			})
+	}
+	return &eng.Tx{Msgs: msgs, Tag: "class_combo"}
 }
 
 func (g *Gen) genCreateClass() *eng.Tx {
